@@ -6,7 +6,8 @@ TRUSTED = ["harness: Eval session vs fresh VM per prefix; errors compared by nam
 ASSUMPTIONS = ["fragments are cut at top-level statement boundaries; a fragment may end with `return <expr>` (its value)",
                "a bare `{ ... }` at statement start is never generated (the parser reads it as a map literal)"]
 
-MODS = ["cnt := 0\nreturn {next: func() { cnt += 1; return cnt }, k: 10}\n"]
+MODS = ["cnt := 0\nreturn {next: func() { cnt += 1; return cnt }, k: 10}\n",
+        "cnt := 100\nreturn {next: func() { cnt += 2; return cnt }, k: 20}\n"]
 
 HAND = [
  (["a := 5\nf := func() { a += 1; return a }", "return f()", "a = 100\nprintln(a)", "return f() + a"], "return [a, f()]"),
@@ -19,6 +20,17 @@ HAND = [
  (["len := func(a) { return 99 }", "return len([1, 2])", "string := 5\nreturn string + len(0)"], "return [len(1), string]"),
  (["a := 1", "b := a / 0", "c := 3"], "return [a]"),
  (["param (p, ...q)", "return [p, q]"], "return [p, q]"),
+ # module state survives a later fragment that imports another module for the first time
+ (["c := import(\"m1\")\nc.k = 5\nn0 := c.next()", "d := import(\"m2\")\nreturn d.k", "return [import(\"m1\").k, import(\"m1\").next(), c.next()]"], "return [c.k, d.k]"),
+ (["return import(\"m2\").next()", "e := import(\"m1\")\ne.k += 1\\nreturn e.k", "return [import(\"m2\").next(), import(\"m1\").k]"], "return e.k"),
+ # float constants across fragments
+ (["a := -0.0", "b := 0.0", "return [string(a), string(b)]"], "return [string(a), string(b), string(0.0), string(-0.0)]"),
+ (["a := 0.0", "b := -0.0\nc := 1.5", "return [string(a), string(b), c]"], "return [string(a), string(b)]"),
+ # parameters declared by the first fragment and locals declared later
+ (["param (p, ...q)", "c := 1\nreturn [p, q, c]", "d := [c]\nreturn [p, q, d]"], "return [p, q, c, d]"),
+ (["param (p, q)\nw := 7", "return [p, q, w]"], "return [p, q, w]"),
+ (["param (p, ...q)\nc := 1\nreturn [p, q, c]", "return [p, q, c]"], "return [p, q, c]"),
+ (["param (...q)\nc := 1", "return [q, c]"], "return [q, c]"),
 ]
 
 def run(rep, br, proofs, rng, tier):
@@ -28,9 +40,16 @@ def run(rep, br, proofs, rng, tier):
         for opt in ("opt", "noopt"):
             c = mk_case("h%d.%s" % (i, opt), "evalseq", opt, ["frags"] + [hexs(f.encode()) for f in frags], hexs(probe.encode()), *[hexs(m.encode()) for m in MODS])
             c["frags"], c["probe"] = frags, probe; cases.append(c)
-    g = proggen.Gen(rng, max_depth=2, modules=("m1",))
+    g = proggen.Gen(rng, max_depth=2, modules=("m1", "m2"))
     for i in range(n):
         chunks, names, fns = g.program_stmts()
+        # stateful use of modules, spread over the fragments
+        for _ in range(rng.randrange(0, 5)):
+            mname = rng.choice(["m1", "m2"])
+            st = rng.choice(["out = append(out, import(\"%s\").next())" % mname, "out = append(out, import(\"%s\").k)" % mname,
+                             "if true { mm := import(\"%s\"); mm.k = mm.k + %d }" % (mname, rng.randrange(1, 9)),
+                             "out = append(out, func() { return import(\"%s\").next() }())" % mname])
+            chunks.insert(rng.randrange(1, len(chunks) + 1), st)
         # cut into consecutive fragments
         cuts = sorted(set(rng.sample(range(1, len(chunks)), min(len(chunks) - 1, rng.randrange(1, 5))))) if len(chunks) > 1 else []
         import re
